@@ -45,15 +45,12 @@ def parseEmitParams (s : String) : Option EmitParams :=
 
 def parseRoots (s : String) : Option (List Nat) := if s == "-" then some [] else (s.splitOn ".").mapM (·.toNat?)
 
-/-- end offsets of the cells inside the cell data, by re-running the cell parser -/
-def cellEnds : Nat → Bytes → Nat → Nat → List Nat
-  | 0, _, _, _ => []
-  | k + 1, cd, refSize, acc =>
-    match (parseCell cd refSize 0).1 with
-    | .ok (_, rest) =>
-      let e := acc + (cd.length - rest.length)
-      e :: cellEnds k rest refSize e
-    | _ => []
+/-- end offsets of the cells inside the cell data for cells stored without hashes: a cell takes
+2 + ⌈bits/8⌉ + size·refs bytes (if a cell did carry stored hashes the sum would miss `tot_cells_size`) -/
+def cellEnds (size : Nat) (rows : List CellRow) : List Nat :=
+  (rows.foldl (fun (acc : Nat × List Nat) r =>
+    let e := acc.1 + 2 + (r.bits.length + 7) / 8 + size * r.refs.length
+    (e, e :: acc.2)) (0, [])).2.reverse
 
 /-- the writer oracle: are `bs` a faithful, canonical serialisation of row 0 of `t` under the options
 (idx, crc, cache)? Decided with the verified reader and the model of the writer's header arithmetic. -/
@@ -68,16 +65,12 @@ def checkWritten (bs : Bytes) (t : Table) (idx crc cache : Bool) : String :=
       else if h.hasIdx ≠ idx ∨ h.hasCrc ≠ crc ∨ h.hasCache ≠ cache ∨ h.flags ≠ 0 then "FAIL flags"
       else if bs.take 4 ≠ magicGeneric then "FAIL magic"
       else if h.absentCount ≠ 0 then "FAIL absent"
-      else if h.sizeBytes ≠ Writer.refByteSize h.cellCount then s!"FAIL size {h.sizeBytes}"
       else if h.totCellsSize ≠ h.cellsData.length then "FAIL tot-cells-size"
       else
-        let offB := (bs.drop 5).headD 0 |>.toNat
-        if offB ≠ Writer.offByteSize (Writer.maxOffset h.totCellsSize cache) then s!"FAIL off-bytes {offB}"
-        else
-          let ends := cellEnds h.cellCount h.cellsData h.sizeBytes 0
-          if ends.length ≠ h.cellCount then "FAIL cell-ends"
-          else if idx ∧ h.index ≠ ends then "FAIL index"
-          else "ok"
+        let ends := cellEnds h.sizeBytes pt.toList
+        if ends.getLast? ≠ (if pt.size = 0 then none else some h.totCellsSize) then "FAIL cell-sizes"
+        else if idx ∧ h.index ≠ ends then "FAIL index"
+        else "ok"
     | _, _ => "FAIL canon"
   | _, .err _ => "FAIL parse-err"
   | _, .panic _ => "FAIL parse-panic"
@@ -94,6 +87,17 @@ def opsBoc : List (String × Handler) := [
     | [p, t, r] => match parseEmitParams p, parseTable t, parseRoots r with
       | some p, some t, some r => hexOut (emitBoc p t r)
       | _, _, _ => "bad-op"
+    | _ => "bad-op"),
+  -- boc.header <table> -> "size off" chosen by serializeBoc for the 8 option sets (model of the writer's arithmetic)
+  ("boc.header", fun
+    | [t] => match parseTable t with
+      | some t => match canon t [0] with
+        | some (ct, _) =>
+          " ".intercalate ((List.range 8).map fun o =>
+            let p := Writer.params ct (o / 4 % 2 == 1) (o / 2 % 2 == 1) (o % 2 == 1) []
+            s!"{p.size},{p.offBytes}")
+        | none => "bad-op"
+      | none => "bad-op"
     | _ => "bad-op"),
   -- boc.alloc <hex> -> bytes requested from the allocator by the reader model
   ("boc.alloc", fun
